@@ -247,7 +247,7 @@ func C06(r *ev.Report) {
 	pairVals := vals
 
 	if ev.Thorough() {
-		pairVals = alpha.Thin(vals, 9000)
+		pairVals = alpha.Thin(alpha.Values(ref.N, 2), 16000)
 	}
 
 	r.Rule("Add/Subtract/Multiply on all ordered pairs of the value alphabet V_n (canonical- and Montgomery-structured limb products, closed under negation and +-1) in the aliasing shapes distinct/same; Square, Invert on all of V_n; Pow on a slice of V_n x exponent alphabet incl. nil and s.Pow(s); SetUInt64 on a uint64 alphabet; constants and nil operands from every prior receiver value; non-trivial = both operands >= 2^64")
@@ -310,7 +310,7 @@ func C06(r *ev.Report) {
 	// Pow
 	powVals := alpha.Thin(vals, 300)
 	if ev.Thorough() {
-		powVals = alpha.Thin(vals, 3000)
+		powVals = alpha.Thin(vals, 8000)
 	}
 
 	exps := powExponents()
